@@ -4,50 +4,49 @@ From Coq Require Import ZArith.
 From AidlV Require Import Model.Wrappers Model.Lexer Gen.LrTables Proofs.Totality Proofs.Typing Proofs.JavadocTotal Proofs.RegexLang.
 
 (* the terminal column of DIRECTION, looked up in the regenerated terminal names *)
-Fixpoint index_of (n : string) (l : list string) (i : N) : option N :=
-  match l with [] => None | x :: l' => if String.eqb x n then Some i else index_of n l' (N.succ i) end.
 Definition dir_col : N := match index_of "DIRECTION" gen_terminals 0 with Some c => c | None => 0 end.
 
 Notation t_annots := (TVec (TAst "Annotation")).
 Notation t_ty := (TAst "Type").
 
+Definition TIdent : vty := TTokOf ident_col.
 Definition user_sig (u : utag) : list vty * vty :=
   match u with
-  | U_OptAidl => ([TAst "Package"; TVec (TAst "Import"); TVec (TAst "Import"); TOpt (TAst "Item")], TOpt (TAst "Aidl"))
-  | U_Package => ([TLoc; TLoc; TString; TLoc; TLoc], TAst "Package")
-  | U_Import => ([TLoc; TLoc; TVec TTok; TTok; TLoc; TLoc], TAst "Import")
-  | U_QualifiedName => ([TVec TTok; TTok], TString)
-  | U_ItemInterface => ([TAst "Interface"], TOpt (TAst "Item"))
-  | U_ItemParcelable => ([TAst "Parcelable"], TOpt (TAst "Item"))
-  | U_ItemEnum => ([TAst "Enum"], TOpt (TAst "Item"))
-  | U_ErrItem => ([TErr], TOpt (TAst "Item"))
-  | U_Interface => ([TLoc; t_annots; TLoc; TOpt TTok; TLoc; TTok; TLoc; TVec (TOpt (TAst "InterfaceElement")); TLoc], TAst "Interface")
+  | U_OptAidl => ([TAst "Package"; TVec (TAst "Import"); TVec (TAst "Import"); TLoud (TAst "Item")], TLoud (TAst "Aidl"))
+  | U_Package => ([TLoc; TLoc; TQName; TLoc; TLoc], TAst "Package")
+  | U_Import => ([TLoc; TLoc; TVec TIdent; TIdent; TLoc; TLoc], TAst "Import")
+  | U_QualifiedName => ([TVec TIdent; TIdent], TQName)
+  | U_ItemInterface => ([TAst "Interface"], TLoud (TAst "Item"))
+  | U_ItemParcelable => ([TAst "Parcelable"], TLoud (TAst "Item"))
+  | U_ItemEnum => ([TAst "Enum"], TLoud (TAst "Item"))
+  | U_ErrItem => ([TErr], TLoud (TAst "Item"))
+  | U_Interface => ([TLoc; t_annots; TLoc; TOpt TTok; TLoc; TIdent; TLoc; TVec (TOpt (TAst "InterfaceElement")); TLoc], TAst "Interface")
   | U_IEMethod => ([TAst "Method"], TOpt (TAst "InterfaceElement"))
   | U_IEConst => ([TAst "Const"], TOpt (TAst "InterfaceElement"))
   | U_ErrIE => ([TErr], TOpt (TAst "InterfaceElement"))
-  | U_Parcelable => ([TLoc; t_annots; TLoc; TLoc; TTok; TLoc; TVec (TOpt (TAst "ParcelableElement")); TLoc], TAst "Parcelable")
+  | U_Parcelable => ([TLoc; t_annots; TLoc; TLoc; TIdent; TLoc; TVec (TOpt (TAst "ParcelableElement")); TLoc], TAst "Parcelable")
   | U_PEField => ([TAst "Field"], TOpt (TAst "ParcelableElement"))
   | U_PEConst => ([TAst "Const"], TOpt (TAst "ParcelableElement"))
   | U_ErrPE => ([TErr], TOpt (TAst "ParcelableElement"))
-  | U_Enum => ([TLoc; t_annots; TLoc; TLoc; TTok; TLoc; TVec (TOpt (TAst "EnumElement")); TLoc], TAst "Enum")
+  | U_Enum => ([TLoc; t_annots; TLoc; TLoc; TIdent; TLoc; TVec (TOpt (TAst "EnumElement")); TLoc], TAst "Enum")
   | U_SomeEnumElement => ([TAst "EnumElement"], TOpt (TAst "EnumElement"))
   | U_ErrEE => ([TErr], TOpt (TAst "EnumElement"))
-  | U_Method => ([TLoc; t_annots; TLoc; TLoc; TOpt TTok; TLoc; t_ty; TLoc; TTok; TLoc; TVec (TAst "Arg"); TLoc;
+  | U_Method => ([TLoc; t_annots; TLoc; TLoc; TOpt TTok; TLoc; t_ty; TLoc; TIdent; TLoc; TVec (TAst "Arg"); TLoc;
                   TOpt (TTuple [TLoc; TTok]); TLoc; TLoc], TAst "Method")
-  | U_Arg => ([TLoc; TAst "Direction"; t_annots; t_ty; TLoc; TOpt TTok; TLoc], TAst "Arg")
+  | U_Arg => ([TLoc; TAst "Direction"; t_annots; t_ty; TLoc; TOpt TIdent; TLoc], TAst "Arg")
   | U_Direction => ([TLoc; TOpt (TTokOf dir_col); TLoc], TAst "Direction")
-  | U_Const => ([TLoc; t_annots; TLoc; t_ty; TLoc; TTok; TLoc; TString; TLoc], TAst "Const")
-  | U_Field => ([TLoc; t_annots; TLoc; t_ty; TLoc; TTok; TLoc; TOpt TString; TLoc], TAst "Field")
-  | U_EnumElement => ([TLoc; TLoc; TLoc; TTok; TLoc; TOpt TTok; TLoc], TAst "EnumElement")
+  | U_Const => ([TLoc; t_annots; TLoc; t_ty; TLoc; TIdent; TLoc; TString; TLoc], TAst "Const")
+  | U_Field => ([TLoc; t_annots; TLoc; t_ty; TLoc; TIdent; TLoc; TOpt TString; TLoc], TAst "Field")
+  | U_EnumElement => ([TLoc; TLoc; TLoc; TIdent; TLoc; TOpt TTok; TLoc], TAst "EnumElement")
   | U_TypeVoid | U_TypePrimitive | U_TypeString | U_TypeCharSequence => ([TLoc; TTok; TLoc], t_ty)
   | U_TypeArray => ([TLoc; TLoc; t_ty; TLoc; TLoc], t_ty)
   | U_TypeList => ([TLoc; TLoc; TLoc; t_ty; TLoc], t_ty)
   | U_TypeRawList | U_TypeRawMap => ([TLoc; TLoc], t_ty)
   | U_TypeMap => ([TLoc; TLoc; TLoc; t_ty; t_ty; TLoc], t_ty)
-  | U_TypeCustom => ([TLoc; TString; TLoc], t_ty)
+  | U_TypeCustom => ([TLoc; TQName; TLoc], t_ty)
   | U_AnnotationList => ([TVec (TOpt (TAst "Annotation"))], t_annots)
   | U_OptAnnotation => ([TTok; TOpt (TVec TKV)], TOpt (TAst "Annotation"))
-  | U_AnnotationParam => ([TTok; TOpt TTok], TKV)
+  | U_AnnotationParam => ([TIdent; TOpt TTok], TKV)
   | U_ValueToString => ([TTok], TString)
   | U_ValueEmptyBraces | U_ValueBraces => ([], TString)
   | U_ValueDotted => ([TTok; TTok], TString)
@@ -102,15 +101,18 @@ Proof.
   intros idx r sk c Hn Ht Hc. apply (G gen_lex_table 0%N H idx r sk c Hn); [|exact Hc]. exact Ht.
 Qed.
 
+Definition quiet (u : utag) : bool := match u with U_ErrItem => false | _ => true end.
+
 Section UserTyped.
   Variable cx : ctx.
   Hypothesis WF : length (cx_lc cx) = S (length (cx_src cx)).
+  Variable loud : bool.
   Notation valid := (valid cx).
-  Notation has_type := (has_type cx).
+  Notation has_type := (has_type cx loud).
 
   Theorem direction_words s : token_lang dir_col s -> In s dir_words.
   Proof.
-    intros [idx [r [sk [rest [fuel [Hn [Ht Hm]]]]]]].
+    intros [[idx [r [sk [rest [fuel [Hn [Ht Hm]]]]]]] _].
     destruct (dir_entries_spec idx r sk dir_col Hn Ht eq_refl) as [L [HL HF]].
     pose proof (finite_match fuel r L s rest HL Hm) as Hin.
     rewrite forallb_forall in HF. apply mem_str_In. apply HF. exact Hin.
@@ -128,47 +130,67 @@ Section UserTyped.
     destruct (get_javadoc_total _ _ _ Hi) as [d ->]. apply Hk.
   Qed.
 
-  Lemma all_of_typed {X} (f : sem -> option X) t l :
-    (forall v, has_type t v -> exists x, f v = Some x) -> Forall (has_type t) l -> exists r, all_of f l = Some r.
+  Lemma all_of_typed {X} (f : sem -> option X) (Q : X -> Prop) t l :
+    (forall v, has_type t v -> exists x, f v = Some x /\ Q x) -> Forall (has_type t) l ->
+    exists r, all_of f l = Some r /\ Forall Q r.
   Proof.
-    intros Hf F. induction F as [|v l Hv F [r IH]]; [exists []; reflexivity|].
-    destruct (Hf v Hv) as [x Hx]. cbn. rewrite Hx, IH. eexists; reflexivity.
+    intros Hf F. induction F as [|v l Hv F [r [IH Q1]]]; [exists []; split; [reflexivity|constructor]|].
+    destruct (Hf v Hv) as [x [Hx Qx]]. cbn. rewrite Hx, IH. eexists; split; [reflexivity|constructor; assumption].
   Qed.
 
-  Lemma flatten_typed {X} (f : sem -> option X) t l :
-    (forall v, has_type t v -> exists x, f v = Some x) -> Forall (has_type (TOpt t)) l -> exists r, flatten_opts f l = Some r.
+  Lemma flatten_typed {X} (f : sem -> option X) (Q : X -> Prop) t l :
+    (forall v, has_type t v -> exists x, f v = Some x /\ Q x) -> Forall (has_type (TOpt t)) l ->
+    exists r, flatten_opts f l = Some r /\ Forall Q r.
   Proof.
-    intros Hf F. induction F as [|v l Hv F [r IH]]; [exists []; reflexivity|].
+    intros Hf F. induction F as [|v l Hv F [r [IH Q1]]]; [exists []; split; [reflexivity|constructor]|].
     destruct v; try contradiction. destruct o as [x|]; cbn.
-    - destruct (Hf x Hv) as [y Hy]. rewrite Hy, IH. eexists; reflexivity.
-    - exists r. exact IH.
+    - destruct (Hf x Hv) as [y [Hy Qy]]. rewrite Hy, IH. eexists; split; [reflexivity|constructor; assumption].
+    - exists r. auto.
   Qed.
 
-  Lemma toks_typed l : Forall (has_type TTok) l -> exists r, toks l = Some r.
+  Lemma ident_tok v : has_type TIdent v -> exists s, v = VTok s /\ ident_ok s.
+  Proof. destruct v; try contradiction. intros [_ H]. eauto. Qed.
+
+  Lemma idents_typed l : Forall (has_type TIdent) l -> exists r, toks l = Some r /\ Forall ident_ok r.
   Proof.
-    intros F. induction F as [|v l Hv F [r IH]]; [exists []; reflexivity|].
-    destruct v; try contradiction. cbn. rewrite IH. eexists; reflexivity.
+    intros F. induction F as [|v l Hv F [r [IH Q]]]; [exists []; split; [reflexivity|constructor]|].
+    destruct (ident_tok v Hv) as [s [-> Hs]]. cbn. rewrite IH. eexists; split; [reflexivity|constructor; assumption].
   Qed.
 
-  Lemma as_annot_t v : has_type (TAst "Annotation") v -> exists x, as_annot v = Some x.
-  Proof. destruct v; cbn; try contradiction; try discriminate; eauto. Qed.
-  Lemma as_ie_t v : has_type (TAst "InterfaceElement") v -> exists x, as_ie v = Some x.
-  Proof. destruct v; cbn; try contradiction; try discriminate; eauto. Qed.
-  Lemma as_pe_t v : has_type (TAst "ParcelableElement") v -> exists x, as_pe v = Some x.
-  Proof. destruct v; cbn; try contradiction; try discriminate; eauto. Qed.
-  Lemma as_ee_t v : has_type (TAst "EnumElement") v -> exists x, as_ee v = Some x.
-  Proof. destruct v; cbn; try contradiction; try discriminate; eauto. Qed.
-  Lemma as_arg_t v : has_type (TAst "Arg") v -> exists x, as_arg v = Some x.
-  Proof. destruct v; cbn; try contradiction; try discriminate; eauto. Qed.
-  Lemma as_import_t v : has_type (TAst "Import") v -> exists x, as_import v = Some x.
-  Proof. destruct v; cbn; try contradiction; try discriminate; eauto. Qed.
-  Lemma as_kv_t v : has_type TKV v -> exists x, as_kv v = Some x.
+  Lemma as_annot_t v : has_type (TAst "Annotation") v -> exists x, as_annot v = Some x /\ annot_ok x.
+  Proof. intros [S Nm]. destruct v; cbn in S; try contradiction; try discriminate. cbn in *. eauto. Qed.
+  Lemma as_ie_t v : has_type (TAst "InterfaceElement") v -> exists x, as_ie v = Some x /\ ie_ok x.
+  Proof. intros [S Nm]. destruct v; cbn in S; try contradiction; try discriminate. cbn in *. eauto. Qed.
+  Lemma as_pe_t v : has_type (TAst "ParcelableElement") v -> exists x, as_pe v = Some x /\ pe_ok x.
+  Proof. intros [S Nm]. destruct v; cbn in S; try contradiction; try discriminate. cbn in *. eauto. Qed.
+  Lemma as_ee_t v : has_type (TAst "EnumElement") v -> exists x, as_ee v = Some x /\ ee_ok x.
+  Proof. intros [S Nm]. destruct v; cbn in S; try contradiction; try discriminate. cbn in *. eauto. Qed.
+  Lemma as_arg_t v : has_type (TAst "Arg") v -> exists x, as_arg v = Some x /\ arg_ok x.
+  Proof. intros [S Nm]. destruct v; cbn in S; try contradiction; try discriminate. cbn in *. eauto. Qed.
+  Lemma as_import_t v : has_type (TAst "Import") v -> exists x, as_import v = Some x /\ import_ok x.
+  Proof. intros [S Nm]. destruct v; cbn in S; try contradiction; try discriminate. cbn in *. eauto. Qed.
+  Lemma as_kv_t v : has_type TKV v -> exists x, as_kv v = Some x /\ ident_ok (fst x).
   Proof. destruct v; cbn; try contradiction; eauto. Qed.
 
-  Lemma as_annots_typed v : has_type t_annots v -> exists l, as_annots v = Some l.
+  Lemma as_annots_typed v : has_type t_annots v -> exists l, as_annots v = Some l /\ annots_ok l.
   Proof.
     destruct v; try contradiction. intros H. apply has_type_vec in H. cbn.
-    apply (all_of_typed as_annot (TAst "Annotation")); [exact as_annot_t|exact H].
+    apply (all_of_typed as_annot annot_ok (TAst "Annotation")); [exact as_annot_t|exact H].
+  Qed.
+
+  Lemma kv_insert_ok kv l : ident_ok (fst kv) -> Forall (fun x => ident_ok (fst x)) l -> Forall (fun x => ident_ok (fst x)) (kv_insert kv l).
+  Proof.
+    intros Hk F. induction F as [|x l Hx F IH]; cbn; [constructor; [assumption|constructor]|].
+    destruct (str_eqb (fst kv) (fst x)); [constructor; assumption|].
+    destruct (str_ltb (fst kv) (fst x)); constructor; try assumption. constructor; assumption.
+  Qed.
+  Lemma kvs_of_ok l : Forall (fun x => ident_ok (fst x)) l -> Forall (fun x => ident_ok (fst x)) (kvs_of l).
+  Proof.
+    unfold kvs_of. intros F.
+    assert (G : forall acc, Forall (fun x => ident_ok (fst x)) acc ->
+                Forall (fun x => ident_ok (fst x)) (fold_left (fun acc kv => kv_insert kv acc) l acc)).
+    { induction F as [|kv l Hk F IH]; intros acc Ha; cbn; [exact Ha|]. apply IH. apply kv_insert_ok; assumption. }
+    apply G. constructor.
   Qed.
 
   Ltac inv_args :=
@@ -176,17 +198,23 @@ Section UserTyped.
            | H : Forall2 _ (_ :: _) _ |- _ => inversion H; subst; clear H
            | H : Forall2 _ [] _ |- _ => inversion H; subst; clear H
            end.
-  (* destruct a value according to its (atomic) type *)
+  (* destruct a value according to its (atomic) type, keeping what the type says about its names *)
   Ltac shape :=
     repeat match goal with
-           | H : Typing.has_type _ TLoc ?v |- _ => destruct v; try contradiction; cbn in H
-           | H : Typing.has_type _ TTok ?v |- _ => destruct v; try contradiction; clear H
-           | H : Typing.has_type _ TString ?v |- _ => destruct v; try contradiction; clear H
-           | H : Typing.has_type _ (TAst _) ?v |- _ => destruct v; cbn in H; try contradiction; try discriminate; clear H
-           | H : Typing.has_type _ TErr ?v |- _ => destruct v; try contradiction; cbn in H
+           | H : Typing.has_type _ _ TLoc ?v |- _ => destruct v; try contradiction; cbn in H
+           | H : Typing.has_type _ _ TTok ?v |- _ => destruct v; try contradiction; clear H
+           | H : Typing.has_type _ _ TIdent ?v |- _ => destruct v; try contradiction; destruct H as [_ H]; specialize (H eq_refl)
+           | H : Typing.has_type _ _ TString ?v |- _ => destruct v; try contradiction; clear H
+           | H : Typing.has_type _ _ TQName ?v |- _ => destruct v; try contradiction; cbn in H
+           | H : Typing.has_type _ _ (TAst _) ?v |- _ =>
+               let S := fresh "S" in let Nm := fresh "Nm" in
+               destruct H as [S Nm]; destruct v; cbn in S; try contradiction; try discriminate; clear S; cbn [sem_names_ok] in Nm
+           | H : Typing.has_type _ _ TErr ?v |- _ => destruct v; try contradiction; cbn in H
            end.
   Ltac ranges := repeat (apply with_range_typed; [assumption|assumption|intros ?]); try (apply with_doc_typed; [assumption|intros ?]);
                  repeat (apply with_range_typed; [assumption|assumption|intros ?]).
+  (* the final goal: the built node has its shape and its names are fine *)
+  Ltac built := split; [exact eq_refl|]; first [assumption | cbn; repeat split; auto; try (intros E; discriminate E)].
 
   Lemma err_typed label e name :
     err_ok cx e -> has_type (TOpt (TAst name)) (fst (act_err label cx (VErr e))).
@@ -201,66 +229,79 @@ Section UserTyped.
     destruct D as [d ->]. cbn. exact I.
   Qed.
 
-  Theorem user_typed u vs :
+  (* the item-level recovery action returns None, and pushes an Error *)
+  Lemma err_loud label e name :
+    err_ok cx e -> Typing.has_type cx (loud || errb (snd (act_err label cx (VErr e)))) (TLoud (TAst name)) (fst (act_err label cx (VErr e))).
+  Proof.
+    intros He. unfold act_err, diag_of_recovery.
+    assert (D : exists d, diag_of_error cx e = Some d /\ d_kind d = DError).
+    { destruct e; cbn in He |- *.
+      - destruct (mk_range_total cx WF loc loc He He) as [r ->]. eexists; split; reflexivity.
+      - destruct (mk_range_total cx WF loc loc He He) as [r ->]. eexists; split; reflexivity.
+      - destruct He as [H1 H2]. destruct (mk_range_total cx WF s e H1 H2) as [r ->]. eexists; split; reflexivity.
+      - destruct He as [H1 H2]. destruct (mk_range_total cx WF s e H1 H2) as [r ->]. eexists; split; reflexivity. }
+    destruct D as [d [-> K]]. cbn. unfold is_error. cbn. rewrite K. apply orb_true_r.
+  Qed.
+
+  Lemma user_typed_quiet u vs : quiet u = true ->
     Forall2 has_type (fst (user_sig u)) vs -> has_type (snd (user_sig u)) (fst (user_fn u cx vs)).
   Proof.
-    intros F. destruct u; cbn [user_sig fst snd] in F |- *; inv_args; cbn [user_fn].
+    intros Q F. destruct u; try discriminate Q; clear Q; cbn [user_sig fst snd] in F |- *; inv_args; cbn [user_fn].
     - (* OptAidl *)
       shape.
-      match goal with H : Typing.has_type _ (TVec (TAst "Import")) ?a, H' : Typing.has_type _ (TVec (TAst "Import")) ?b |- _ =>
+      match goal with H : Typing.has_type _ _ (TVec (TAst "Import")) ?a, H' : Typing.has_type _ _ (TVec (TAst "Import")) ?b |- _ =>
         destruct a; try contradiction; destruct b; try contradiction; apply has_type_vec in H; apply has_type_vec in H';
-        destruct (all_of_typed as_import _ _ as_import_t H) as [r1 E1]; destruct (all_of_typed as_import _ _ as_import_t H') as [r2 E2] end.
-      match goal with H : Typing.has_type _ (TOpt (TAst "Item")) ?o |- _ => destruct o; try contradiction end.
-      unfold act_OptAidl. rewrite E1, E2. destruct o as [x|]; [|exact I].
-      match goal with H : Typing.has_type _ (TOpt (TAst "Item")) _ |- _ => cbn in H end.
-      destruct x; try contradiction; try discriminate. exact eq_refl.
-    - (* Package *) shape. unfold act_Package. ranges. exact eq_refl.
+        destruct (all_of_typed as_import import_ok _ _ as_import_t H) as [r1 [E1 Q1]];
+        destruct (all_of_typed as_import import_ok _ _ as_import_t H') as [r2 [E2 Q2]] end.
+      match goal with H : Typing.has_type _ _ (TLoud (TAst "Item")) ?o |- _ => destruct o; try contradiction; rename H into HI end.
+      unfold act_OptAidl. rewrite E1, E2. destruct o as [x|]; [|exact HI].
+      cbn in HI. destruct HI as [SI NI]. destruct x; cbn in SI; try contradiction; try discriminate. cbn in NI.
+      split; [exact eq_refl|]. cbn. repeat split; assumption.
+    - (* Package *) shape. unfold act_Package. ranges. built.
     - (* Import *)
-      shape. match goal with H : Typing.has_type _ (TVec TTok) ?a |- _ => destruct a; try contradiction; apply has_type_vec in H;
-                                                                        destruct (toks_typed _ H) as [segs E] end.
-      unfold act_Import. rewrite E. ranges. exact eq_refl.
+      shape. match goal with H : Typing.has_type _ _ (TVec TIdent) ?a |- _ => destruct a; try contradiction; apply has_type_vec in H;
+                                                                        destruct (idents_typed _ H) as [segs [E Q]] end.
+      unfold act_Import. rewrite E. ranges. built. exists segs. auto.
     - (* QualifiedName *)
-      shape. match goal with H : Typing.has_type _ (TVec TTok) ?a |- _ => destruct a; try contradiction; apply has_type_vec in H;
-                                                                        destruct (toks_typed _ H) as [segs E] end.
-      unfold act_QualifiedName. rewrite E. destruct segs; exact I.
-    - shape. exact eq_refl.
-    - shape. exact eq_refl.
-    - shape. exact eq_refl.
-    - (* ErrItem *) shape. apply err_typed. assumption.
+      shape. match goal with H : Typing.has_type _ _ (TVec TIdent) ?a |- _ => destruct a; try contradiction; apply has_type_vec in H;
+                                                                        destruct (idents_typed _ H) as [segs [E Q]] end.
+      unfold act_QualifiedName. rewrite E.
+      assert (QQ : qualified_ok (match segs with [] => s | _ => join_dot segs ++ dotc :: s end)) by (exists segs, s; auto).
+      destruct segs; exact QQ.
+    - shape. built.
+    - shape. built.
+    - shape. built.
     - (* Interface *)
-      shape.
-      match goal with H : Typing.has_type _ t_annots ?a |- _ => destruct (as_annots_typed _ H) as [an EA]; clear H end.
-      match goal with H : Typing.has_type _ (TOpt TTok) ?o |- _ => destruct o; try contradiction; rename H into HO end.
-      match goal with H : Typing.has_type _ (TVec (TOpt (TAst "InterfaceElement"))) ?a |- _ =>
-        destruct a; try contradiction; apply has_type_vec in H; destruct (flatten_typed as_ie _ _ as_ie_t H) as [els EL] end.
-      unfold act_Interface. rewrite EA. cbn [is_some_sem].
-      destruct o as [x|]; rewrite EL; ranges; exact eq_refl.
-    - shape. exact eq_refl.
-    - shape. exact eq_refl.
+      match goal with H : Typing.has_type _ _ t_annots ?a |- _ => destruct (as_annots_typed _ H) as [an [EA QA]]; clear H end.
+      match goal with H : Typing.has_type _ _ (TOpt TTok) ?o |- _ => destruct o as [| | |oo| | | | | | | | | | | | | | | | | | | | | | |]; try contradiction; rename H into HO end.
+      match goal with H : Typing.has_type _ _ (TVec (TOpt (TAst "InterfaceElement"))) ?a |- _ =>
+        destruct a; try contradiction; apply has_type_vec in H; destruct (flatten_typed as_ie ie_ok _ _ as_ie_t H) as [els [EL QL]] end.
+      shape. unfold act_Interface. rewrite EA. cbn [is_some_sem].
+      destruct oo as [x|]; rewrite EL; ranges; built.
+    - shape. built.
+    - shape. built.
     - shape. apply err_typed. assumption.
     - (* Parcelable *)
-      shape.
-      match goal with H : Typing.has_type _ t_annots ?a |- _ => destruct (as_annots_typed _ H) as [an EA]; clear H end.
-      match goal with H : Typing.has_type _ (TVec (TOpt (TAst "ParcelableElement"))) ?a |- _ =>
-        destruct a; try contradiction; apply has_type_vec in H; destruct (flatten_typed as_pe _ _ as_pe_t H) as [els EL] end.
-      unfold act_Parcelable. rewrite EA, EL. ranges. exact eq_refl.
-    - shape. exact eq_refl.
-    - shape. exact eq_refl.
+      match goal with H : Typing.has_type _ _ t_annots ?a |- _ => destruct (as_annots_typed _ H) as [an [EA QA]]; clear H end.
+      match goal with H : Typing.has_type _ _ (TVec (TOpt (TAst "ParcelableElement"))) ?a |- _ =>
+        destruct a; try contradiction; apply has_type_vec in H; destruct (flatten_typed as_pe pe_ok _ _ as_pe_t H) as [els [EL QL]] end.
+      shape. unfold act_Parcelable. rewrite EA, EL. ranges. built.
+    - shape. built.
+    - shape. built.
     - shape. apply err_typed. assumption.
     - (* Enum *)
-      shape.
-      match goal with H : Typing.has_type _ t_annots ?a |- _ => destruct (as_annots_typed _ H) as [an EA]; clear H end.
-      match goal with H : Typing.has_type _ (TVec (TOpt (TAst "EnumElement"))) ?a |- _ =>
-        destruct a; try contradiction; apply has_type_vec in H; destruct (flatten_typed as_ee _ _ as_ee_t H) as [els EL] end.
-      unfold act_Enum. rewrite EA, EL. ranges. exact eq_refl.
-    - shape. exact eq_refl.
+      match goal with H : Typing.has_type _ _ t_annots ?a |- _ => destruct (as_annots_typed _ H) as [an [EA QA]]; clear H end.
+      match goal with H : Typing.has_type _ _ (TVec (TOpt (TAst "EnumElement"))) ?a |- _ =>
+        destruct a; try contradiction; apply has_type_vec in H; destruct (flatten_typed as_ee ee_ok _ _ as_ee_t H) as [els [EL QL]] end.
+      shape. unfold act_Enum. rewrite EA, EL. ranges. built.
+    - shape. built.
     - shape. apply err_typed. assumption.
     - (* Method *)
-      match goal with H : Typing.has_type _ t_annots ?a |- _ => destruct (as_annots_typed _ H) as [an EA]; clear H end.
-      match goal with H : Typing.has_type _ (TOpt TTok) ?o |- _ => destruct o as [| | |oo| | | | | | | | | | | | | | | | | | | | | | |]; try contradiction; clear H end.
-      match goal with H : Typing.has_type _ (TVec (TAst "Arg")) ?a |- _ =>
-        destruct a; try contradiction; apply has_type_vec in H; destruct (all_of_typed as_arg _ _ as_arg_t H) as [al EL]; clear H end.
-      match goal with H : Typing.has_type _ (TOpt (TTuple [TLoc; TTok])) ?o |- _ =>
+      match goal with H : Typing.has_type _ _ t_annots ?a |- _ => destruct (as_annots_typed _ H) as [an [EA QA]]; clear H end.
+      match goal with H : Typing.has_type _ _ (TOpt TTok) ?o |- _ => destruct o as [| | |oo| | | | | | | | | | | | | | | | | | | | | | |]; try contradiction; clear H end.
+      match goal with H : Typing.has_type _ _ (TVec (TAst "Arg")) ?a |- _ =>
+        destruct a; try contradiction; apply has_type_vec in H; destruct (all_of_typed as_arg arg_ok _ _ as_arg_t H) as [al [EL QL]]; clear H end.
+      match goal with H : Typing.has_type _ _ (TOpt (TTuple [TLoc; TTok])) ?o |- _ =>
         destruct o as [| | |oc| | | | | | | | | | | | | | | | | | | | | | |]; try contradiction; rename H into HC end.
       shape.
       unfold act_Method. rewrite EA.
@@ -268,66 +309,81 @@ Section UserTyped.
       destruct ISS as [ow ->]. rewrite EL.
       apply with_doc_typed; [assumption|intros doc].
       assert (FIN : forall a b c d e f g h mk ds, valid a -> valid b -> valid c -> valid d -> valid e -> valid f -> valid g -> valid h ->
+                (forall r1 r2 r3 r4, method_ok (mk r1 r2 r3 r4)) ->
                 has_type (TAst "Method") (fst (method_finish cx (VLoc a) (VLoc b) (VLoc c) (VLoc d) (VLoc e) (VLoc f) (VLoc g) (VLoc h) mk ds))).
-      { intros a b c d e f g h mk ds Ha Hb Hc Hd He Hf Hg Hh. unfold method_finish, with_range.
+      { intros a b c d e f g h mk ds Ha Hb Hc Hd He Hf Hg Hh Hmk. unfold method_finish, with_range.
         destruct (mk_range_total cx WF a b Ha Hb) as [r1 ->]. destruct (mk_range_total cx WF c d Hc Hd) as [r2 ->].
-        destruct (mk_range_total cx WF e f He Hf) as [r3 ->]. destruct (mk_range_total cx WF g h Hg Hh) as [r4 ->]. exact eq_refl. }
-      destruct oc as [x|]; [|apply FIN; assumption].
-      change (Typing.has_type cx (TTuple [TLoc; TTok]) x) in HC. destruct x; try contradiction.
-      match goal with HC : Typing.has_type _ (TTuple _) (VTuple ?l) |- _ => destruct l as [|a1 [|a2 [|a3 rr]]]; cbn in HC; try tauto end.
+        destruct (mk_range_total cx WF e f He Hf) as [r3 ->]. destruct (mk_range_total cx WF g h Hg Hh) as [r4 ->].
+        split; [exact eq_refl|]. apply Hmk. }
+      assert (MK : forall code r1 r2 r3 r4, method_ok (Method ow s t al an code doc r1 r2 r3 r4)) by (intros; repeat split; assumption).
+      destruct oc as [x|]; [|apply FIN; try assumption; apply MK].
+      change (Typing.has_type cx loud (TTuple [TLoc; TTok]) x) in HC. destruct x; try contradiction.
+      match goal with HC : Typing.has_type _ _ (TTuple _) (VTuple ?l) |- _ => destruct l as [|a1 [|a2 [|a3 rr]]]; cbn in HC; try tauto end.
       destruct HC as [HT1 [HT2 _]]. destruct a1; try contradiction. destruct a2; try contradiction. cbn in HT1.
-      destruct (parse_u32 s0); [apply FIN; assumption|].
+      destruct (parse_u32 s0); [apply FIN; try assumption; apply MK|].
       match goal with |- context [mk_range cx ?a ?b] => destruct (mk_range_total cx WF a b) as [r E]; try assumption; rewrite E end.
-      apply FIN; assumption.
+      apply FIN; try assumption; apply MK.
     - (* Arg *)
-      match goal with H : Typing.has_type _ t_annots ?a |- _ => destruct (as_annots_typed _ H) as [an EA]; clear H end.
-      match goal with H : Typing.has_type _ (TOpt TTok) ?o |- _ => destruct o as [| | |oo| | | | | | | | | | | | | | | | | | | | | | |]; try contradiction; rename H into HO end.
+      match goal with H : Typing.has_type _ _ t_annots ?a |- _ => destruct (as_annots_typed _ H) as [an [EA QA]]; clear H end.
+      match goal with H : Typing.has_type _ _ (TOpt TIdent) ?o |- _ => destruct o as [| | |oo| | | | | | | | | | | | | | | | | | | | | | |]; try contradiction; rename H into HO end.
       shape. unfold act_Arg. rewrite EA.
-      destruct oo as [x|]; [cbn in HO; destruct x; try contradiction|]; ranges; exact eq_refl.
+      destruct oo as [x|]; [cbn in HO; destruct x; try contradiction; destruct HO as [_ HO]; specialize (HO eq_refl)|]; ranges; built.
     - (* Direction *)
-      match goal with H : Typing.has_type _ (TOpt (TTokOf dir_col)) ?o |- _ => destruct o as [| | |oo| | | | | | | | | | | | | | | | | | | | | | |]; try contradiction; rename H into HO end.
-      shape. unfold act_Direction. destruct oo as [x|]; [|exact eq_refl].
+      match goal with H : Typing.has_type _ _ (TOpt (TTokOf dir_col)) ?o |- _ => destruct o as [| | |oo| | | | | | | | | | | | | | | | | | | | | | |]; try contradiction; rename H into HO end.
+      shape. unfold act_Direction. destruct oo as [x|]; [|built].
       cbn in HO. destruct x; try contradiction. apply direction_words in HO.
       destruct HO as [<-|[<-|[<-|[]]]];
         repeat match goal with |- context [str_eqb ?a ?b] => let v := eval vm_compute in (str_eqb a b) in change (str_eqb a b) with v end;
-        cbv iota; ranges; exact eq_refl.
+        cbv iota; ranges; built.
     - (* Const *)
-      match goal with H : Typing.has_type _ t_annots ?a |- _ => destruct (as_annots_typed _ H) as [an EA]; clear H end.
-      shape. unfold act_Const. rewrite EA. ranges. exact eq_refl.
+      match goal with H : Typing.has_type _ _ t_annots ?a |- _ => destruct (as_annots_typed _ H) as [an [EA QA]]; clear H end.
+      shape. unfold act_Const. rewrite EA. ranges. built.
     - (* Field *)
-      match goal with H : Typing.has_type _ t_annots ?a |- _ => destruct (as_annots_typed _ H) as [an EA]; clear H end.
-      match goal with H : Typing.has_type _ (TOpt TString) ?o |- _ => destruct o as [| | |oo| | | | | | | | | | | | | | | | | | | | | | |]; try contradiction; rename H into HO end.
+      match goal with H : Typing.has_type _ _ t_annots ?a |- _ => destruct (as_annots_typed _ H) as [an [EA QA]]; clear H end.
+      match goal with H : Typing.has_type _ _ (TOpt TString) ?o |- _ => destruct o as [| | |oo| | | | | | | | | | | | | | | | | | | | | | |]; try contradiction; rename H into HO end.
       shape. unfold act_Field. rewrite EA.
-      destruct oo as [x|]; [cbn in HO; destruct x; try contradiction|]; ranges; exact eq_refl.
+      destruct oo as [x|]; [cbn in HO; destruct x; try contradiction|]; ranges; built.
     - (* EnumElement *)
-      match goal with H : Typing.has_type _ (TOpt TTok) ?o |- _ => destruct o as [| | |oo| | | | | | | | | | | | | | | | | | | | | | |]; try contradiction; rename H into HO end.
+      match goal with H : Typing.has_type _ _ (TOpt TTok) ?o |- _ => destruct o as [| | |oo| | | | | | | | | | | | | | | | | | | | | | |]; try contradiction; rename H into HO end.
       shape. unfold act_EnumElement.
-      destruct oo as [x|]; [cbn in HO; destruct x; try contradiction|]; ranges; exact eq_refl.
-    - shape. unfold act_TypeVoid, simple_type. ranges. exact eq_refl.
-    - shape. unfold act_TypePrimitive, simple_type. ranges. exact eq_refl.
-    - shape. unfold act_TypeString, simple_type. ranges. exact eq_refl.
-    - shape. unfold act_TypeCharSequence, simple_type. ranges. exact eq_refl.
-    - shape. unfold act_TypeArray. ranges. exact eq_refl.
-    - shape. unfold act_TypeList. ranges. exact eq_refl.
-    - shape. unfold act_TypeRawList. ranges. exact eq_refl.
-    - shape. unfold act_TypeMap. ranges. exact eq_refl.
-    - shape. unfold act_TypeRawMap. ranges. exact eq_refl.
-    - shape. unfold act_TypeCustom. ranges. exact eq_refl.
+      destruct oo as [x|]; [cbn in HO; destruct x; try contradiction|]; ranges; built.
+    - shape. unfold act_TypeVoid, simple_type. ranges. built.
+    - shape. unfold act_TypePrimitive, simple_type. ranges. built.
+    - shape. unfold act_TypeString, simple_type. ranges. built.
+    - shape. unfold act_TypeCharSequence, simple_type. ranges. built.
+    - shape. unfold act_TypeArray. ranges. built.
+    - shape. unfold act_TypeList. ranges. built.
+    - shape. unfold act_TypeRawList. ranges. built.
+    - shape. unfold act_TypeMap. ranges. built.
+    - shape. unfold act_TypeRawMap. ranges. built.
+    - shape. unfold act_TypeCustom. ranges. built.
     - (* AnnotationList *)
-      match goal with H : Typing.has_type _ (TVec (TOpt (TAst "Annotation"))) ?a |- _ =>
-        destruct a; try contradiction; apply has_type_vec in H; destruct (flatten_typed as_annot _ _ as_annot_t H) as [an EL] end.
-      unfold act_AnnotationList. rewrite EL. cbn [ok fst]. apply has_type_vec. clear. induction an; constructor; [exact eq_refl|assumption].
+      match goal with H : Typing.has_type _ _ (TVec (TOpt (TAst "Annotation"))) ?a |- _ =>
+        destruct a; try contradiction; apply has_type_vec in H; destruct (flatten_typed as_annot annot_ok _ _ as_annot_t H) as [an [EL QL]] end.
+      unfold act_AnnotationList. rewrite EL. cbn [ok fst]. apply has_type_vec. clear -QL.
+      induction QL; constructor; [split; [exact eq_refl|assumption]|assumption].
     - (* OptAnnotation *)
-      match goal with H : Typing.has_type _ (TOpt (TVec TKV)) ?o |- _ => destruct o as [| | |oo| | | | | | | | | | | | | | | | | | | | | | |]; try contradiction; rename H into HO end.
-      shape. unfold act_OptAnnotation. destruct oo as [x|]; [|exact eq_refl].
-      change (Typing.has_type cx (TVec TKV) x) in HO. destruct x; try contradiction. apply has_type_vec in HO.
-      destruct (all_of_typed as_kv _ _ as_kv_t HO) as [kvs ->]. exact eq_refl.
+      match goal with H : Typing.has_type _ _ (TOpt (TVec TKV)) ?o |- _ => destruct o as [| | |oo| | | | | | | | | | | | | | | | | | | | | | |]; try contradiction; rename H into HO end.
+      shape. unfold act_OptAnnotation. destruct oo as [x|]; [|built; constructor].
+      change (Typing.has_type cx loud (TVec TKV) x) in HO. destruct x; try contradiction. apply has_type_vec in HO.
+      destruct (all_of_typed as_kv (fun kv => ident_ok (fst kv)) _ _ as_kv_t HO) as [kvs [-> Q]].
+      split; [exact eq_refl|]. cbn. unfold annot_ok. cbn. apply kvs_of_ok. exact Q.
     - (* AnnotationParam *)
-      match goal with H : Typing.has_type _ (TOpt TTok) ?o |- _ => destruct o as [| | |oo| | | | | | | | | | | | | | | | | | | | | | |]; try contradiction; rename H into HO end.
-      shape. unfold act_AnnotationParam. destruct oo as [x|]; [cbn in HO; destruct x; try contradiction|]; exact I.
+      match goal with H : Typing.has_type _ _ (TOpt TTok) ?o |- _ => destruct o as [| | |oo| | | | | | | | | | | | | | | | | | | | | | |]; try contradiction; rename H into HO end.
+      shape. unfold act_AnnotationParam. destruct oo as [x|]; [cbn in HO; destruct x; try contradiction|]; cbn; assumption.
     - shape. exact I.
     - exact I.
     - exact I.
     - shape. exact I.
+  Qed.
+
+  Theorem user_typed u vs :
+    Forall2 has_type (fst (user_sig u)) vs ->
+    Typing.has_type cx (loud || errb (snd (user_fn u cx vs))) (snd (user_sig u)) (fst (user_fn u cx vs)).
+  Proof.
+    intros F. destruct (quiet u) eqn:Q; [apply has_type_lift; apply user_typed_quiet; assumption|].
+    destruct u; try discriminate Q. cbn [user_sig fst snd] in F |- *. inv_args. cbn [user_fn].
+    match goal with H : Typing.has_type _ _ TErr ?v |- _ => destruct v; try contradiction; cbn in H end.
+    apply err_loud. assumption.
   Qed.
 End UserTyped.
